@@ -34,7 +34,7 @@ type Case struct {
 	Files      map[string]string `json:"files"`
 	Goroutines int               `json:"goroutines"`
 	Rounds     int               `json:"rounds"`
-	Procs      int               `json:"gomaxprocs"`
+	Procs      int               `json:"gomaxprocs"` // of the process that generated the case (set per shard by the driver); informational
 	Shared     int               `json:"shared"` // 0: own resolvers; 1: one shared goast.New(); 2: one shared goast.WithResolver(simple map); all share the read-only restorer maps
 	Yields     []int             `json:"yields"` // Gosched padding pattern
 }
@@ -110,8 +110,8 @@ func check(t h.TB, c Case) {
 			}
 		}
 	}
-	old := runtime.GOMAXPROCS(c.Procs)
-	defer runtime.GOMAXPROCS(old)
+	// (GOMAXPROCS is chosen per process by the driver: calling runtime.GOMAXPROCS for every case
+	// crashed the Go runtime under the race detector on a loaded machine - SIGSEGV in startTheWorld)
 	var sharedDR resolver.DecoratorResolver
 	if c.Shared > 0 {
 		sharedDR = mkDR()
@@ -172,7 +172,7 @@ func genCase(t *rapid.T) (Case, bool) {
 	const sub = "Concurrent"
 	p := gen.GenProg(t, 1, 4)
 	c := Case{Libs: p.Libs, Files: p.RootSources(rootPath), Goroutines: rapid.IntRange(2, 12).Draw(t, "goroutines"), Rounds: rapid.IntRange(2, 12).Draw(t, "rounds"),
-		Procs: []int{2, 4, 16}[rapid.IntRange(0, 2).Draw(t, "procs")], Shared: rapid.IntRange(0, 2).Draw(t, "shared")}
+		Procs: runtime.GOMAXPROCS(0), Shared: rapid.IntRange(0, 2).Draw(t, "shared")}
 	for i, n := 0, rapid.IntRange(0, 6).Draw(t, "nyields"); i < n; i++ {
 		c.Yields = append(c.Yields, rapid.IntRange(0, 3).Draw(t, "yield"))
 	}
